@@ -111,7 +111,10 @@ func corrWop(o *Out, op Op, kind string, plain bool, v *Val, pre []byte, m BufMo
 	}
 	o.emit(line, out, fmt.Sprintf("wop:%s:%s:%s:%s:%v", opTokens(op), kind, class, lenClass(len(app)), plain), true)
 	// the same case for the function body as translated into GoIR from the source (driver command irw)
-	o.emit("irw "+b01(plain)+" "+opTokens(op)+" "+v.String(), out, "", false)
+	// (the interpreter appends to immutable lists: very long values are left to the proof and to the wop line)
+	if len(v.Ns)+len(v.Ss) <= 3000 && len(v.S) <= 20000 && len(app) <= 40000 {
+		o.emit("irw "+b01(plain)+" "+opTokens(op)+" "+v.String(), out, "", false)
+	}
 	o.stat("wop-" + op.K + "-" + class)
 	return WopResult{class, app, msg}
 }
@@ -137,7 +140,9 @@ func corrRop(o *Out, op Op, kind string, plain bool, data []byte, m BufMode) Rop
 		out = fmt.Sprintf("ok | %s%d | %s", p, consumed, v.String())
 	}
 	o.emit(line, out, fmt.Sprintf("rop:%s:%s:%s:%s:%v", opTokens(op), kind, class, lenClass(len(data)), plain), true)
-	o.emit("irr "+b01(plain)+" "+opTokens(op)+" "+hexOf(data), out, "", false)
+	if len(data) <= 20000 {
+		o.emit("irr "+b01(plain)+" "+opTokens(op)+" "+hexOf(data), out, "", false)
+	}
 	o.stat("rop-" + op.K + "-" + class)
 	return RopResult{class, consumed, v, msg}
 }
